@@ -26,6 +26,10 @@ EXC_CLASSES = {
     'OSError': OSError,
     'IOError': IOError,
     'RuntimeError': RuntimeError,
+    # subclasses of the classes the code promises to contain
+    'TimeoutError': TimeoutError,               # OSError subclass (socket:// and rfc2217:// ports raise it)
+    'BrokenPipeError': BrokenPipeError,         # OSError subclass
+    'RecursionError': RecursionError,           # RuntimeError subclass
 }
 
 
